@@ -32,13 +32,13 @@ PROP_MODULES = {
     "C12": [("C12", r".*"), ("C12Full", r".*")],
     "C13": [("C13", r".*"), ("C13Full", r".*"), ("C13Count", r".*")],
     "C09": [("C09", r".*"), ("CodeTies", r"swap_tie|lex_tie|lex_fun_tie|degCompare_tie|wdeglex_tie|wdegrevlex_tie|deglex_tie|degrevlex_tie")],
-    "C19": [("C19", r".*"), ("CodeTies", r"boundSqrt_tie|boundLog2_tie|pow_tie|gcd_tie"), ("CodeTies2", r"fpp_"), ("CodeTies4", r"factorize")],
-    "C03": [("C03", r".*"), ("C01", r"define_lawful|define_any_lawful|define_elements|elements_ext|descOK"), ("C01Prime", r"multGenerator|isGenerator"), ("GenTies", r"DefineConds|ffDefineCases"), ("CodeTies2", r"fpp_")],
+    "C19": [("C19", r".*"), ("CodeTies", r"boundSqrt_tie|boundLog2_tie|pow_tie|gcd_tie"), ("CodeTies2", r"fpp_"), ("CodeTies4", r"factorize"), ("CodeTies5", r"ombinIter")],
+    "C03": [("C03", r".*"), ("C01", r"define_lawful|define_any_lawful|define_elements|elements_ext|descOK"), ("C01Prime", r"multGenerator|isGenerator"), ("GenTies", r"DefineConds|ffDefineCases"), ("CodeTies2", r"fpp_"), ("CodeTies5", r"multGenerator")],
     "C15": [("C15", r".*"), ("C15Full", r".*"), ("C15FullDefine", r".*_define$|.*fieldRoundTripB$|C15_full_bounded(_partial)?$"), ("GenTies", r"Pattern|Regex|XOrY|regex|VarName")],
     "C16": [("C16", r".*"), ("C16Static", r".*")],
     "C17": [("C17", r".*"), ("C17Names", r".*"), ("C17Extra", r".*"), ("C17ExtraU", r".*"), ("GenTies", r"kindNames"), ("C15", r"parse_total"), ("ErrTies", r".*")],
     "C18": [("C18", r".*"), ("C01Prime", r"lookup|computeTables|estimateMemory"), ("GenTies", r"MaxMem|EstimateMemory"),
-            ("CodeTies", r"estimateMemory_tie"), ("C01Ext", r"log"), ("C18Tables", r".*"), ("C18Tables2", r".*"), ("C18Tables3", r".*"), ("C18Tables4", r".*")],
+            ("CodeTies", r"estimateMemory_tie"), ("C01Ext", r"log"), ("C18Tables", r".*"), ("C18Tables2", r".*"), ("C18Tables3", r".*"), ("C18Tables4", r".*"), ("C18Tables5", r".*"), ("CodeTies5", r"lookup|newTable")],
 }
 
 
@@ -129,7 +129,7 @@ def proof_side(pid, res, tier):
         extra = set(ax) - ALLOWED_AXIOMS
         # the assembly corollaries "for every field Define returns over the real database" (Props/C01.lean)
         # import C04's table sweeps and inherit their native_decide axioms (DESIGN.md §2); nothing else may
-        if pid in NATIVE_OK or n.startswith("Algobra.C01.") or n.startswith("Algobra.C04Full.") or n.endswith("_define") or n.endswith("fieldRoundTripB") or n.endswith("C15_full_bounded_partial") or n.endswith("C15_full_bounded") or n.endswith("C18Tables.define_ext_tables"):
+        if pid in NATIVE_OK or n.startswith("Algobra.C01.") or n.startswith("Algobra.C04Full.") or n.endswith("_define") or n.endswith("fieldRoundTripB") or n.endswith("C15_full_bounded_partial") or n.endswith("C15_full_bounded") or n.endswith("C18Tables.define_ext_tables") or n.endswith("C18Tables.history_transparent_define_ext"):
             if any("._native.native_decide.ax_" in a for a in ax):
                 info.setdefault("native_dependent", []).append(n)
             extra -= NATIVE_AXIOMS
